@@ -265,6 +265,10 @@ def judge_axil(m, ref, base, dw, errs, stats):
             errs.append({"kind": "more-b-than-writes"})
             break
         t = m.writes[k]
+        if k >= len(m.offered["aw"]) or k >= len(m.offered["w"]) or k >= len(m.log["w"]):
+            errs.append({"kind": "write-response-before-its-data-was-transferred", "write": k, "b_at": c,
+                         "w_beats_transferred": len(m.log["w"]), "aw_offered": len(m.offered["aw"])})
+            break
         issue = min(m.offered["aw"][k], m.offered["w"][k])
         stats["writes"] += 1
         ref.write(issue, c, {t["addr"] - base + l: (t["data"] >> (8 * l)) & 0xff for l in lanes_mask(t["strb"], nb)},
@@ -303,6 +307,11 @@ def judge_axi(m, ref, base, dw, errs, stats):
             break
         t = m.writes[k]
         nbeats = len(t["beats"])
+        if k >= len(m.offered["aw"]) or wi + nbeats > len(m.log["w"]) or any(e[0] > c for e in m.log["w"][wi:wi + nbeats]):
+            # "one response per request": the B of a write may only come after all of its data beats were transferred
+            errs.append({"kind": "write-response-before-its-data-was-transferred", "write": k, "b_at": c, "beats_of_this_write": nbeats,
+                         "w_beats_transferred_so_far": sum(1 for e in m.log["w"] if e[0] <= c)})
+            break
         issue = min(m.offered["aw"][k], m.offered["w"][wi])
         wi += nbeats
         stats["writes"] += 1
@@ -763,7 +772,11 @@ def run_shard(shard):
         for e in r["errs"][:1]:
             tag = "+".join(r["tags"]) or "simple-timing"
             root = {"axi2axil": "slave-queues-requests", "axil_up": "master-overlaps-requests"}.get(cfg["dut"])
-            who = root if root in r["tags"] else "%s[%s]" % (cfg["partner"], tag)
+            # the two listed root causes are read-side (axi2axil: r.last / r.id taken from the command engine) resp. lane-select
+            # defects: only the error kinds they can produce are attributed to them, anything else keeps the partner's name
+            attributable = {"axi2axil": e["kind"].startswith(("r-", "read-", "more-r")),
+                            "axil_up": True}.get(cfg["dut"], False)
+            who = root if (root in r["tags"] and attributable) else "%s[%s]" % (cfg["partner"], tag)
             if e["kind"].endswith("error-responses-not-propagated"):
                 who = "any-timing[%s]" % cfg["partner"]
             col.violation("%s/%s/%s" % (cfg["dut"], who, e["kind"]), case,
